@@ -323,6 +323,13 @@ def requests():
             out.append({"kind": "list-variable", "text": "query($y: Tag) { os { h(y: $y) } }", "vars": {"y": "w"}, "query_dirs": qd})
             out.append({"kind": "enum-literal", "text": "{ en(v: ONE) }", "vars": None, "query_dirs": qd})
             out.append({"kind": "enum-variable", "text": "query($v: E) { en(v: $v) }", "vars": {"v": "ONE"}, "query_dirs": qd})
+        if len(qd) == 1:
+            # the query-side directive's own argument comes through a variable / a variable default: the instance still gets *its* arguments
+            out.append({"kind": "y-literal", "field": "f", "text": 'query($q: String!) { f(y: "w") @t%d(id: $q) }' % NDIR,
+                        "vars": {"q": qd[0]}, "query_dirs": qd})
+            out.append({"kind": "y-literal", "field": "f", "text": 'query($q: String! = "%s") { f(y: "w") @t%d(id: $q) }' % (qd[0], NDIR),
+                        "vars": None, "query_dirs": qd})
+            out.append({"kind": "object", "text": 'query($q: String!) { o @t%d(id: $q) { s tags } }' % NDIR, "vars": {"q": qd[0]}, "query_dirs": qd})
         if len(qd) == 2:
             # the same response key selected twice: the directives of the merged field nodes nest in node order
             a, b = ' @t%d(id: "%s")' % (NDIR, qd[0]), ' @t%d(id: "%s")' % (NDIR - 1, qd[1])
